@@ -56,3 +56,43 @@ def always_completes(prog, fn, kinds, _stack=(), or_error=False):
     if not _stack:
         _memo[key] = res
     return res
+
+
+_mh = {}
+
+
+def marker_helpers(prog):
+    """{F: kinds} for the private grammar functions that are handed an open Marker and close it on every path
+    (e.g. the tail of the operator loop extracted into `complete_infix_expr(p, m, ..)`): a call of such a function
+    counts as the completion of the caller's node, with the kinds F completes."""
+    if prog.dir in _mh:
+        return _mh[prog.dir]
+    out = {}
+    for k, b in prog.bodies.items():
+        if not k.startswith("oq3_parser::grammar::") or "{closure" in k or str(b.vis) == "pub":
+            continue
+        if not any("parser::Marker" in str(b.local_ty(i)) and "CompletedMarker" not in str(b.local_ty(i)) for i in range(1, b.nargs + 1)):
+            continue
+        closes = {bi for bi, t in b.calls() if (b.callee_of(t) or "").endswith(("Marker::complete", "Marker::abandon"))}
+        if not closes:
+            continue
+        succ = b.succ()
+        seen, st, open_exit = set(), [0], False
+        while st:
+            x = st.pop()
+            if x in seen or x in closes or b.blocks[x].cleanup:
+                continue
+            seen.add(x)
+            if b.blocks[x].term["k"] == "return":
+                open_exit = True
+                break
+            st.extend(succ[x])
+        if open_exit:
+            continue
+        kinds = set()
+        for bi, t in b.calls():
+            if (b.callee_of(t) or "").endswith("Marker::complete"):
+                kinds |= completed_kinds(prog, b, (bi, t))
+        out[k] = kinds
+    _mh[prog.dir] = out
+    return out
